@@ -14,10 +14,11 @@ TLS_BASED = ["tls", "btls", "utls", "utlst"]
 
 def scenarios(tp):
     if tp == "utlst":           # a utls client of a plain tls server: the TLS leg of utls
-        return ["normal", "garbage2", "ctlflood", "blocking"]
+        return ["normal", "garbage2", "ctlflood", "blocking", "longidle"]
     s = ["normal", "refused", "idle", "ctlflood", "blocking"]
     if tp in TCP_BASED:
         s.append("silent")
+        s.append("longidle")
     if tp in ("tcp", "btcp"):
         s.append("release")
     if tp in TLS_BASED:
@@ -79,6 +80,8 @@ def gen_scripts(rnd, nseeds, xid0=0):
     for tp in TPS:
         for sc in scenarios(tp):
             n = nseeds if sc in ("normal", "mute", "garbage", "ctlflood", "garbage2") else max(1, nseeds // 3)
+            if sc == "longidle":
+                n = 1          # 3.4 s each
             for _ in range(n):
                 xid += 1
                 scripts.append("X %d %s %s %d" % (xid, tp, sc, rnd.randint(1, 10 ** 6)))
